@@ -6,6 +6,7 @@ package main
 import (
 	"fmt"
 	"go/types"
+	"os"
 	"sort"
 	"strconv"
 	"strings"
@@ -687,9 +688,10 @@ func (e *Exec) loopVars(fn *ssa.Function, l *loopInfo, st *State, at *ssa.BasicB
 	// candidates for one name the most recent one (deepest in the dominator
 	// tree, latest in its block) wins
 	type cand struct {
-		v   Val
-		blk *ssa.BasicBlock
-		ord int
+		v       Val
+		blk     *ssa.BasicBlock
+		ord     int
+		isConst bool
 	}
 	best := map[string]cand{}
 	ord := 0
@@ -718,7 +720,7 @@ func (e *Exec) loopVars(fn *ssa.Function, l *loopInfo, st *State, at *ssa.BasicB
 			if b != at && !b.Dominates(at) {
 				continue
 			}
-			if b == l.header && at == l.header {
+			if b == l.header && at == l.header && len(l.body) > 0 {
 				continue
 			}
 			if db := valueBlock(d.X); db != nil && db != at && !db.Dominates(at) {
@@ -727,15 +729,28 @@ func (e *Exec) loopVars(fn *ssa.Function, l *loopInfo, st *State, at *ssa.BasicB
 			if _, isPhi := d.X.(*ssa.Phi); isPhi && valueBlock(d.X) == l.header {
 				continue // handled below
 			}
-			c := cand{v: v, blk: b, ord: ord}
+			if os.Getenv("GOVC_DEBUG_VARS") != "" && name == "m" {
+				fmt.Fprintf(os.Stderr, "cand m: X=%s (%T) val=%q block=%d\n", d.X.Name(), d.X, v.S, b.Index)
+			}
+			_, isConst := d.X.(*ssa.Const)
+			c := cand{v: v, blk: b, ord: ord, isConst: isConst}
 			old, has := best[name]
-			if !has || (old.blk == c.blk && c.ord > old.ord) || (old.blk != c.blk && old.blk.Dominates(c.blk)) {
+			switch {
+			case !has:
+				best[name] = c
+			case old.isConst && !c.isConst:
+				best[name] = c // a real definition beats a constant placeholder
+			case !old.isConst && c.isConst:
+			case (old.blk == c.blk && c.ord > old.ord) || (old.blk != c.blk && old.blk.Dominates(c.blk)):
 				best[name] = c
 			}
 		}
 	}
 	for n, c := range best {
 		vars[n] = c.v
+		if os.Getenv("GOVC_DEBUG_VARS") != "" {
+			fmt.Fprintf(os.Stderr, "loopvar %s: %s = %q (%v) fn=%v A=%v\n", fn.Name(), n, c.v.S, c.v.T, c.v.Fn != nil, c.v.A != nil)
+		}
 	}
 	for _, b := range fn.Blocks {
 		if b != at && !b.Dominates(at) {
